@@ -64,6 +64,7 @@ def run(ctx):
     from . import c17
     c17._api(ctx, ctx.model, rule='C05.D4', only=('jsonparser',))
     c17.zone_applied(ctx, ctx.model, 'C05.D4', 'jsonparser', 'parse_embedded_scalar', 'json', catches=True)
+    c17.map_publication(ctx, ctx.model, 'C05.D4')
 
 
 def _spellings(ctx, entries):
